@@ -223,6 +223,25 @@ func (a *algRun) c11Scenario(outDir string, n, t, dealer, victim int, dev deviat
 	if honestRefused == 0 {
 		a.mon(fmt.Sprintf("C11 addressee_refuses %s: no honest participant reported an error", tag))
 	}
+	// a deviating DEAL is refused by its addressee: the addressee's own machine answers the deals with an error result (that
+	// the round dies a step later, when nobody can certify the dealer, is not the addressee refusing the deal)
+	if dev.step == "state_dkg_deals_await_confirmations" {
+		byVictim, answered := false, ""
+		for _, m := range c.boardMessages() {
+			if m.SenderAddr == c.nodes[victim].name && m.DkgRoundID == round && strings.HasPrefix(m.Event, "event_dkg_response_confirm_") {
+				answered = m.Event
+				if m.Event == "event_dkg_response_confirm_canceled_by_error" {
+					byVictim = true
+				}
+			}
+		}
+		if !byVictim {
+			if answered == "" {
+				answered = "nothing"
+			}
+			a.mon(fmt.Sprintf("C11 addressee_refuses %s: the addressee's machine answered the deals it was handed with %s, not with an error report", tag, answered))
+		}
+	}
 	for i, nd := range c.nodes {
 		st := c.roundState(nd, round)
 		if st == "stage_signing_idle" || strings.HasPrefix(st, "state_signing") || st == "state_dkg_master_key_collected" {
